@@ -32,4 +32,9 @@ MUTATIONS = [
     ("pivot-is-second-atom", "debump.py", "        pivot = atomnames[2]\n        for atomname in atomnames:\n            if residue.has_atom(atomname):\n                coordlist.append(residue.get_atom(atomname).coords)\n            else:\n                raise ValueError(\"Error occurred while trying to debump!\")\n        initcoords", "        pivot = atomnames[1]\n        for atomname in atomnames:\n            if residue.has_atom(atomname):\n                coordlist.append(residue.get_atom(atomname).coords)\n            else:\n                raise ValueError(\"Error occurred while trying to debump!\")\n        initcoords", "fire-or-error"),
     ("selection-memoised", "residue.py", [('        pivot_atom = self.get_atom(pivot)\n        beyond = [pivot_atom]', '        if pivot in self.moveable_names:\n            return list(self.moveable_names[pivot])\n        pivot_atom = self.get_atom(pivot)\n        beyond = [pivot_atom]'), ('        return [\n            atom.name\n            for atom in self.atoms\n            if atom in beyond and atom is not pivot_atom\n        ]', '        names = [\n            atom.name\n            for atom in self.atoms\n            if atom in beyond and atom is not pivot_atom\n        ]\n        self.moveable_names[pivot] = names\n        return list(names)'), ('        self.dihedrals = []\n        atomclass = ""', '        self.dihedrals = []\n        self.moveable_names = {}\n        atomclass = ""'), ('        self.atoms.append(atom)\n        self.map[atom.name] = atom\n', '        self.atoms.append(atom)\n        self.map[atom.name] = atom\n        self.moveable_names = {}\n')], None, "fire"),
     ("selection-local-cache-only", "residue.py", [('        pivot_atom = self.get_atom(pivot)\n        beyond = [pivot_atom]', "        seen_names = {}\n" + '        pivot_atom = self.get_atom(pivot)\n        beyond = [pivot_atom]')], None, "silent"),
+    ("flip-drops-oxygens-at-cterm", "hydrogens/structures.py", "newmoveablenames = [name for name in moveablenames if name != \"HO\"]",
+     "newmoveablenames = [name for name in moveablenames if not name.startswith((\"O\", \"HO\"))]", "fire"),
+    ("flip-filter-unrelated-name", "hydrogens/structures.py", "newmoveablenames = [name for name in moveablenames if name != \"HO\"]",
+     "newmoveablenames = [name for name in moveablenames if name not in (\"HO\", \"OXT\")]", "silent"),
+    ("opt-forced-on", "main.py", "        args.debump = False\n        args.opt = False\n", "        args.debump = False\n        args.opt = False\n    elif args.pka_method is not None:\n        args.opt = True\n", "fire"),
 ]
